@@ -57,6 +57,8 @@ def generate(rng, focus, tier="quick"):
         if end % DAY < start % DAY + 1:
             end = (end // DAY) * DAY + (start % DAY) + 1
     plan = {"world": NAME, "start": start, "end": end, "start_us": sub_us, "pre": rng.random() < 0.5,
+            "unit": rng.choice(["s", "s", "ns", "us", "ms"]),       # resolution of the Timestamp objects handed over
+            "pm_type": rng.choice(["bool", "bool", "numpy", "int"]),
             "post": rng.random() < 0.5, "wd": rng.choice(cal.WEEKDAYS), "pm": rng.random() < 0.3, "fault": None}
     if rng.random() < 0.3:
         plan["wd"] = plan["wd"].lower() if rng.random() < 0.7 else plan["wd"].capitalize()
@@ -110,6 +112,13 @@ def _run(plan, ctx):
         ctx.probe("start_with_microseconds")
     if start % 60:
         ctx.probe("start_with_seconds")
+    unit = plan.get("unit", "s")
+    if unit != "s" and not (unit == "ms" and plan.get("start_us")):
+        try:
+            S, E = S.as_unit(unit), E.as_unit(unit)
+            ctx.probe("timestamp_resolution_" + unit)
+        except Exception:
+            pass
     ctx.step = 0
     ctx.sim_seconds = max(0, end - start)
     span = (end - start) // DAY
@@ -192,6 +201,11 @@ def _run(plan, ctx):
     if not ctx.judging("C13"):
         return
     pm = plan["pm"]
+    if plan.get("pm_type") == "numpy":
+        import numpy as _np
+        pm = _np.bool_(pm)               # a truthy flag that is not the object True
+    elif plan.get("pm_type") == "int":
+        pm = 1 if pm else 0
     if plan["fault"] == "bad_weekday":
         ctx.fault("bad_weekday")
         try:
